@@ -14,7 +14,7 @@ Step(cur, e, i) ==
   IF e.ev = "reset" THEN [st |-> InitState, skip |-> FALSE]
   ELSE IF cur.skip THEN cur
   ELSE LET r == EvalChunk(cur.st, e.ast) IN
-       IF r.exc.c = "oom" THEN [st |-> cur.st, skip |-> PrintT(<<"BAD", i, "oom">>)]
+       IF Skip(r.exc) THEN [st |-> cur.st, skip |-> PrintT(<<"BAD", i, "oom", r.exc.why>>)]
        ELSE IF SeqMatches(r.out, e.out) /\ CauseMatches(r.exc, e.exc) THEN [st |-> r.st, skip |-> FALSE]
        ELSE [st |-> r.st,
              skip |-> PrintT(<<"BAD", i, "mismatch",
